@@ -106,6 +106,10 @@ def _distribute_try(computation_graph: ComputationGraph,
     # light variable on the light devices, as we were doing before.
     for a in agents_capa:
         for c in hints.must_host(a):
+            if var_hosted.get(c, a) != a:
+                raise ImpossibleDistributionException(
+                    'Computation {} must be hosted on both {} and {}'
+                    .format(c, var_hosted[c], a))
             mapping[a].add(c)
             var_hosted.update({c: a})
             agents_capa[a] -= computation_memory(
